@@ -423,6 +423,30 @@ theorem C11_get_mut (f : Forest) (hi : f.Inv) (k : Forest.MapKind) (e key : Nat)
   obtain ⟨hr, hok, hb⟩ := mapGetMutSet_refines h k key new hm
   exact ⟨hr.abs_same, hok, hb, fun k' hk => hr.abs_other h hk⟩
 
+/-- The entry API in one statement (the conjunction of the theorems above): every entry-API call
+    on a live element of a forest satisfying the invariant returns normally and has its
+    reference-map meaning. -/
+theorem C11_entry_api (f : Forest) (hi : f.Inv) (k : Forest.MapKind) (e : Nat)
+    (he : f.isElement e = true) :
+    (∀ d, k.matches d = true →
+      (f.entryOrInsert k e d).2 = .ok ∧
+      abs k (f.entryOrInsert k e d).1 e =
+        (if omContainsKey (abs k f e) (Forest.entryKey d) then abs k f e
+         else omInsert (abs k f e) (Forest.entryKey d) (payloadOf d))) ∧
+    (∀ key g, (∀ v, k.matches v = true → k.matches (g v) = true) →
+      (f.entryAndModify k e key g).2.1 = .ok ∧
+      abs k (f.entryAndModify k e key g).1 e =
+        omModify (abs k f e) key (fun p => payloadOf (g (mkEntry k key p)))) ∧
+    (∀ v, k.matches v = true →
+      (f.entryInsert k e v).2 = .ok ∧
+      abs k (f.entryInsert k e v).1 e = omInsert (abs k f e) (Forest.entryKey v) (payloadOf v)) ∧
+    (∀ key, (f.entryRemove k e key).2 = .ok ∧
+      abs k (f.entryRemove k e key).1 e = omRemove (abs k f e) key) :=
+  ⟨fun d hm => let r := C11_entry_or_insert f hi k e d he hm; ⟨r.2.1, r.1⟩,
+   fun key g hg => let r := C11_entry_and_modify f hi k e key g he hg; ⟨r.2.1, r.1⟩,
+   fun v hm => let r := (C11_entry_insert_remove f hi k e he).1 v hm; ⟨r.2, r.1⟩,
+   fun key => let r := (C11_entry_insert_remove f hi k e he).2 key; ⟨r.2, r.1⟩⟩
+
 /-! ### Serialisation order -/
 
 /-- What the serialisers iterate for an element (`gen_outputs`: `xot.namespaces(node)` then
